@@ -137,6 +137,10 @@ Shows(o, m, fields, proj) ==
   /\ o.pos = m.pos /\ o.pos_id = m.pos_id                                \* the oracle analysed with the same field request
   /\ o.norm = m.norm /\ o.dform = m.dform /\ o.reading = m.reading /\ o.syn = m.syn
   /\ o.psurface = Proj(proj, m) /\ o.str = o.psurface
+  \* Morpheme.get_word_info(): the word information object shows what the library's accessors show (ids as raw numbers)
+  /\ LET w == o.winfo  v == m.winfo IN
+       /\ w.surface = v.surface /\ w.hwl = v.hwl /\ w.length = v.hwl /\ w.pos_id = v.pos_id /\ w.norm = v.norm /\ w.dfwid = v.dfwid
+       /\ w.dform = v.dform /\ w.reading = v.reading /\ w.a = v.a /\ w.b = v.b /\ w.ws = v.ws /\ w.syn = v.syn
 
 \* text[begin:end] is the raw surface (offsets are code points of the analysed text)
 SliceOK(text, o) == o.begin <= o.end /\ o.end <= Len(text) /\ SubSeq(text, o.begin + 1, o.end) = o.surface
